@@ -476,8 +476,9 @@ def run_history(ck, meshes, kinds, hist, refs, g0, known_set, stats):
     return case, impl_sets
 
 
-def jit_off_reference(meshes_json, ops_json):
-    """canonical values computed in a subprocess with the JIT disabled"""
+def jit_off_reference(meshes_json, ops_json, jit_off=True):
+    """canonical values computed in a subprocess (one fresh grid per operation) with the JIT disabled, or (jit_off=False) in a
+    fresh interpreter in which nothing else ever happened: the reference for state shared BETWEEN grids"""
     code = r'''
 import sys, json, warnings
 warnings.filterwarnings("ignore")
@@ -498,7 +499,7 @@ for mj, ops in zip(data["meshes"], data["ops"]):
     out.append(row)
 print("RESULT" + json.dumps(out))
 ''' % os.path.join(common.VERIF, "harness")
-    env = common.impl_env({"NUMBA_DISABLE_JIT": "1"})
+    env = common.impl_env({"NUMBA_DISABLE_JIT": "1"} if jit_off else {})
     p = subprocess.run([sys.executable, "-W", "ignore", "-c", code], input=json.dumps({"meshes": meshes_json, "ops": ops_json}),
                        text=True, stdout=subprocess.PIPE, stderr=subprocess.PIPE, env=env, timeout=3000)
     for line in p.stdout.splitlines():
@@ -620,6 +621,35 @@ def main(ck):
                     continue
                 pair_count += 1
                 run_history(ck, [pm], ["lonlat"], [(0, a, []), (0, b, []), (0, a, [])], [pref], g0, None, stats)
+    # the same call on ANOTHER grid in the same process: grid B's answer must be B's, whatever grid A cached for the very same
+    # arguments (state shared between grids: class-level or module-level caches)
+    pm2 = meshgen.gen_mesh(rng, max_ops=7, partial=True)
+    pref2 = Ref(pm2, "lonlat")
+    cross_count = 0
+    cross_ops = []
+    for fam, ops_ in combos.items():
+        for a in (ops_ if ck.tier == "thorough" else rng.sample(ops_, min(4, len(ops_)))):
+            cross_count += 1
+            cross_ops.append(a)
+            run_history(ck, [pm, pm2], ["lonlat", "lonlat"], [(0, a, []), (1, a, []), (0, a, []), (1, a, [])], [pref, pref2], g0, None, stats)
+    pair_count += cross_count
+    # ... judged against a FRESH INTERPRETER (a cache shared by all grids would also poison the in-process reference grids):
+    # every operation there runs once, on its own new grid, with arguments no earlier call in that process used
+    try:
+        fresh_b = jit_off_reference([{"nodes": pm2.nodes, "faces": pm2.faces}], [[list(o) for o in cross_ops]], jit_off=False)[0]
+        for a, want in zip(cross_ops, fresh_b):
+            ga, gb = mk_grid(pm, "lonlat"), mk_grid(pm2, "lonlat")
+            try:
+                apply_op(ga, a)
+                got = to_jsonable(canon(apply_op(gb, a)))
+            except Exception as ex:
+                got = ["raises", type(ex).__name__]
+            if not close_json(json.loads(json.dumps(got)), want):
+                ck.fail("result_differs_from_fresh_process", {"meshes": [{"nodes": pm.nodes, "faces": pm.faces}, {"nodes": pm2.nodes, "faces": pm2.faces}],
+                                                              "kinds": ["lonlat", "lonlat"], "cross_op": list(a)},
+                        {"op": a[0], "arg": str(a[1:])}, detail="other grid first, then this grid: %s vs fresh interpreter %s" % (str(got)[:300], str(want)[:300]))
+    except Exception as ex:
+        ck.proof["errors"].append("fresh-interpreter reference run failed: " + repr(ex)[-500:])
     # ordered triples of element kinds for each tree type / system (a switch must not clobber another kind's tree)
     import itertools
     triple_count = 0
@@ -713,6 +743,18 @@ def replay(ck, rp):
     ck.note_case("replay")
     ck.note_case(json.dumps(case, default=str)[:2000])
     meshes = [meshgen.Mesh(mj["nodes"], mj["faces"]) for mj in case["meshes"]]
+    if "cross_op" in case:
+        a = tuple(case["cross_op"])
+        want = jit_off_reference([case["meshes"][1]], [[list(a)]], jit_off=False)[0][0]
+        ga, gb = mk_grid(meshes[0], "lonlat"), mk_grid(meshes[1], "lonlat")
+        try:
+            apply_op(ga, a)
+            got = to_jsonable(canon(apply_op(gb, a)))
+        except Exception as ex:
+            got = ["raises", type(ex).__name__]
+        if not close_json(json.loads(json.dumps(got)), want):
+            ck.fail("result_differs_from_fresh_process", case, {"op": a[0], "arg": str(a[1:])})
+        return
     if "history" not in case:
         return
     kinds = case.get("kinds", ["lonlat"] * len(meshes))
